@@ -293,3 +293,8 @@ MUTANTS += [
         memset(digest, 0, idx->digest_size);""", 'new': """    if(0 == idx->comp_length)
         memset(digest, 0, idx->digest_size);""", 'expect': None},
 ]
+
+
+# SESSION7b additions to the claim (round 8, DESIGN 12.6)
+CLAIM['technique'] += '; bit-field widths of the digest size'
+CLAIM['text'] += ' C15-f: the comparison length is never a digest size truncated by a bit-field.'
